@@ -138,18 +138,14 @@ def parseOpt (p : Bytes) (s : Sector) : Cnt Sector := do
     { s1 with extRcode := some extRcode, ednsVersion := some ver, maxPayload := mp, extFlags := some fl,
               ednsStart := some s1.offset, ednsEnd := some (s1.offset + ednsLen), ednsCount := 0 }
 
-def parseRR (p : Bytes) (s : Sector) (sec : Section) : Cnt Sector := do
-  tick
-  let rrStart := s.offset
-  let s ← skipName p s
-  let rrType ← lift (rrType p s)
-  let rrRdlen ← lift (rrRdlen p s)
-  if rrType == TYPE_OPT then
+/-- what `parse_rr` does after reading the owner name, type and rdlen -/
+def rrBody (p : Bytes) (s : Sector) (sec : Section) (rrStart rrType rrRdlen : Nat) : Cnt Sector :=
+  if rrType == TYPE_OPT then do
     lift (failIf (sec != .additional) .invalidPacket)
     let d ← lift (sub s.offset rrStart)
     lift (failIf (d != 1) .invalidPacket)
     parseOpt p s
-  else if rrType == TYPE_NS || rrType == TYPE_CNAME || rrType == TYPE_PTR then
+  else if rrType == TYPE_NS || rrType == TYPE_CNAME || rrType == TYPE_PTR then do
     lift (failIf (rrRdlen == 0) .packetTooSmall)
     let (s, _) ← lift (incrementOffset p s DNS_RR_HEADER_SIZE)
     let fin ← checkCompressedNameI p s.offset
@@ -157,7 +153,7 @@ def parseRR (p : Bytes) (s : Sector) (sec : Section) : Cnt Sector := do
     lift (failIf (d != rrRdlen) .invalidPacket)
     let (s, _) ← lift (incrementOffset p s rrRdlen)
     pure s
-  else if rrType == TYPE_MX then
+  else if rrType == TYPE_MX then do
     lift (failIf (rrRdlen ≤ 2) .packetTooSmall)
     let (s, _) ← lift (incrementOffset p s DNS_RR_HEADER_SIZE)
     let fin ← checkCompressedNameI p (s.offset + 2)
@@ -165,7 +161,7 @@ def parseRR (p : Bytes) (s : Sector) (sec : Section) : Cnt Sector := do
     lift (failIf (d != rrRdlen) .invalidPacket)
     let (s, _) ← lift (incrementOffset p s rrRdlen)
     pure s
-  else if rrType == TYPE_SOA then
+  else if rrType == TYPE_SOA then do
     lift (failIf (rrRdlen ≤ 1 + 20) .packetTooSmall)
     let (s, _) ← lift (incrementOffset p s DNS_RR_HEADER_SIZE)
     let fin1 ← checkCompressedNameI p s.offset
@@ -175,7 +171,7 @@ def parseRR (p : Bytes) (s : Sector) (sec : Section) : Cnt Sector := do
     lift (failIf (d != e) .invalidPacket)
     let (s, _) ← lift (incrementOffset p s rrRdlen)
     pure s
-  else if rrType == TYPE_DNAME then
+  else if rrType == TYPE_DNAME then do
     lift (failIf (rrRdlen == 0) .packetTooSmall)
     let (s, _) ← lift (incrementOffset p s DNS_RR_HEADER_SIZE)
     let fin ← checkUncompressedNameI p s.offset
@@ -183,17 +179,25 @@ def parseRR (p : Bytes) (s : Sector) (sec : Section) : Cnt Sector := do
     lift (failIf (d != rrRdlen) .invalidPacket)
     let (s, _) ← lift (incrementOffset p s rrRdlen)
     pure s
-  else if rrType == TYPE_A then
+  else if rrType == TYPE_A then do
     lift (failIf (rrRdlen != 4) .invalidPacket)
     let (s, _) ← lift (incrementOffset p s (DNS_RR_HEADER_SIZE + rrRdlen))
     pure s
-  else if rrType == TYPE_AAAA then
+  else if rrType == TYPE_AAAA then do
     lift (failIf (rrRdlen != 16) .invalidPacket)
     let (s, _) ← lift (incrementOffset p s (DNS_RR_HEADER_SIZE + rrRdlen))
     pure s
-  else
+  else do
     let (s, _) ← lift (incrementOffset p s (DNS_RR_HEADER_SIZE + rrRdlen))
     pure s
+
+def parseRR (p : Bytes) (s : Sector) (sec : Section) : Cnt Sector := do
+  tick
+  let rrStart := s.offset
+  let s ← skipName p s
+  let rrType ← lift (rrType p s)
+  let rrRdlen ← lift (rrRdlen p s)
+  rrBody p s sec rrStart rrType rrRdlen
 
 def parseRRs (p : Bytes) (sec : Section) : Nat → Sector → Cnt Sector
   | 0, s => pure s
